@@ -104,6 +104,28 @@ fn read_disk(ws: &Path) -> Disk {
     out
 }
 
+fn list_dirs(ws: &Path) -> std::collections::BTreeSet<String> {
+    fn walk(base: &Path, dir: &Path, out: &mut std::collections::BTreeSet<String>) {
+        let Ok(rd) = std::fs::read_dir(dir) else { return };
+        for e in rd.flatten() {
+            let p = e.path();
+            if let Ok(md) = std::fs::symlink_metadata(&p)
+                && md.is_dir()
+            {
+                let rel = p.strip_prefix(base).unwrap().to_string_lossy().into_owned();
+                if rel == ".jj" {
+                    continue;
+                }
+                out.insert(rel);
+                walk(base, &p, out);
+            }
+        }
+    }
+    let mut out = std::collections::BTreeSet::new();
+    walk(ws, ws, &mut out);
+    out
+}
+
 fn read_file_bytes(store: &Arc<Store>, path: &RepoPath, id: &jj_lib::backend::FileId) -> Vec<u8> {
     use futures::AsyncReadExt as _;
     let mut r = store.read_file(path, id).block_on().unwrap();
@@ -445,6 +467,43 @@ impl Run<'_> {
         let path = FILES[self.ch.choose(FILES.len())];
         let disk_path = self.env.ws.join(path);
         let kind = self.ch.weighted(&[6, 2, 1, 1, 1, 1]);
+        // The simulated user leaves everything outside the sparse patterns
+        // alone (files there would be untracked obstacles for later pattern
+        // changes, which is a different scenario).
+        let patterns = ts.sparse_patterns().clone();
+        let all = patterns == vec![RepoPathBuf::root()];
+        if !in_sparse(&patterns, path) || (kind == 4 && !all) {
+            return;
+        }
+        {
+            let mut parent = disk_path.parent();
+            while let Some(p) = parent {
+                if p == self.env.ws {
+                    break;
+                }
+                if let Ok(md) = std::fs::symlink_metadata(p)
+                    && !md.is_dir()
+                    && !in_sparse(&patterns, &p.strip_prefix(&self.env.ws).unwrap().to_string_lossy())
+                {
+                    return;
+                }
+                parent = p.parent();
+            }
+            // replacing a directory by a file/symlink would delete what is below it
+            if disk_path.is_dir() && !all {
+                return;
+            }
+            // nor does the user build a directory where a tracked file outside
+            // the patterns lives (or the reverse)
+            if !all {
+                for (tp, _) in ts.current_tree().entries() {
+                    let tp = tp.as_internal_file_string().to_string();
+                    if !in_sparse(&patterns, &tp) && (path.starts_with(&format!("{tp}/")) || tp.starts_with(&format!("{path}/"))) {
+                        return;
+                    }
+                }
+            }
+        }
         // never edit conflict files here (C06 handles them separately)
         let is_conflict = ts
             .current_tree()
@@ -579,6 +638,7 @@ impl Run<'_> {
         let disk = read_disk(&self.env.ws);
         let prev = read_tree(&self.env.store, ts.current_tree());
         let patterns = ts.sparse_patterns().clone();
+        let prev_sides = ts.current_tree().tree_ids().num_sides();
         let options = SnapshotOptions {
             base_ignores: GitIgnoreFile::empty(),
             progress: None,
@@ -641,6 +701,17 @@ impl Run<'_> {
                     }
                 }
             };
+            // The merge of whole trees is simplified when a change elsewhere
+            // makes two sides equal; a conflict then legitimately shows up
+            // with fewer, but equivalent, terms.
+            if let (Some(TreeEntry::Conflict(a)), Some(TreeEntry::Conflict(b))) = (got, expect.as_ref())
+                && a != b
+                && a.clone().simplify() == b.clone().simplify()
+                && prev_sides != ts.current_tree().tree_ids().num_sides()
+            {
+                self.out.probe("conflict_arity_reduced_by_tree_level_simplification", 1);
+                continue;
+            }
             if got != expect.as_ref() {
                 // which property does the mismatch belong to?
                 let (prop, inv) = match (prev.get(&p), &expect) {
@@ -730,6 +801,7 @@ impl Run<'_> {
             self.note("user creates ignored file ign".to_string());
         }
         let disk_before = read_disk(&self.env.ws);
+        let dirs_before = list_dirs(&self.env.ws);
         let outside_before = read_disk(&outside);
         let res = ts.check_out(&new_tree);
         let stats = match res {
@@ -811,6 +883,19 @@ impl Run<'_> {
                 && in_sparse(&patterns, p)
             {
                 self.materialized.insert(p.clone(), bytes.clone());
+            }
+            if disk_after.get(p) != expect.as_ref()
+                && stats.skipped_files > 0
+                && touched
+                && disk_after.get(p).is_none()
+                && dirs_before.contains(p)
+            {
+                // an (empty) untracked directory left behind by the user stood
+                // where the tree has a file: skipped like any other obstacle
+                self.note(format!("path {p} skipped: untracked directory in the way"));
+                self.out.probe("obstacle_leftover_directory", 1);
+                self.stopped = true;
+                return false;
             }
             if disk_after.get(p) != expect.as_ref() {
                 let (prop, inv) = if !touched {
@@ -933,6 +1018,7 @@ impl Run<'_> {
         let tree_before = ts.current_tree().clone();
         let tree = read_tree(&self.env.store, ts.current_tree());
         let disk_before = read_disk(&self.env.ws);
+        let dirs_before = list_dirs(&self.env.ws);
         let res = ts.set_sparse_patterns(pats.clone());
         if let Err(e) = res {
             self.violate("C27", "set_sparse_patterns_failed", format!("{e}"));
@@ -954,6 +1040,8 @@ impl Run<'_> {
             let was = in_sparse(&old_pats, p);
             let is = in_sparse(&pats, p);
             let expect = match (was, is, tree.contains_key(p)) {
+                // something untracked already stands there: skipped, not overwritten
+                (false, true, true) if disk_before.contains_key(p) || dirs_before.contains(p) => disk_before.get(p).cloned(),
                 (false, true, true) => expected_disk_entry(&self.env, &cur_tree, p),
                 (true, false, true) => None,
                 _ => disk_before.get(p).cloned(),
